@@ -230,12 +230,13 @@ def run(ctx: Ctx) -> None:
             ctx.check(keys == want, "O3", "separate_complex_types=True", repo.loc("pprint", repo.func("pprint.PrettyPrinter.separate_complex")), " ".join(keys), f"keys {orig} are reordered to {keys}; a stable partition gives {want}")
         else:
             ctx.check(keys == orig, "O3", "separate_complex_types=False", repo.loc("pprint", repo.func("pprint.PrettyPrinter.separate_complex")), "order untouched", f"with the option off the key order changes to {keys}")
-    # SYMBOL inside a block is a keyword, at the root a block
-    holder = {}
+    # the SYMBOL keyword of a STYLE is a keyword wherever the STYLE stands: nested, or as the root of a partial Mapfile
+    for lvl in (1, 0):
+        holder = {}
 
-    def make2():
-        holder["d"] = cd([("__type__", "style"), ("symbol", W("s")), ("color", [SNum.sym("a", None, None)] * 3)])
-        return models.printer(I, separate_complex_types=True), [holder["d"], 1], {}
+        def make2(lvl=lvl):
+            holder["d"] = cd([("__type__", "style"), ("symbol", W("s")), ("color", [SNum.sym("a", None, None)] * 3)])
+            return models.printer(I, separate_complex_types=True), [holder["d"]], {"level": lvl}
 
-    outs = I.explore("pprint.PrettyPrinter.separate_complex", make2)
-    ctx.check(list(holder["d"].keys()) == ["__type__", "symbol", "color"], "O3", "STYLE SYMBOL keyword is not moved", repo.loc("pprint", repo.func("pprint.PrettyPrinter.is_complex_type")), "", f"the SYMBOL keyword of a STYLE is treated as a block: {list(holder['d'].keys())}")
+        outs = I.explore("pprint.PrettyPrinter.separate_complex", make2)
+        ctx.check(list(holder["d"].keys()) == ["__type__", "symbol", "color"], "O3", f"STYLE SYMBOL keyword is not moved (STYLE at nesting level {lvl})", repo.loc("pprint", repo.func("pprint.PrettyPrinter.is_complex_type")), "", f"the SYMBOL keyword of a STYLE at level {lvl} is treated as a block: {list(holder['d'].keys())}")
